@@ -30,6 +30,7 @@ import (
 	"sort"
 	"strconv"
 	"strings"
+	"syscall"
 	"time"
 
 	"github.com/jhalter/mobius/hotline"
@@ -53,6 +54,7 @@ type c20Update struct {
 	IP       string   `json:"ip,omitempty"`
 	Until    int64    `json:"until,omitempty"` // unix seconds; 0 = permanent (nil)
 	Existing bool     `json:"existing,omitempty"` // acct-update whose new login already exists (must be refused)
+	Logins   []string `json:"logins,omitempty"`   // acct-touch / acct-delete-any: the first of these logins that exists is used
 }
 
 type c20Job struct {
@@ -171,6 +173,19 @@ func c20Apply(s *c20Stores, u c20Update) error {
 		return s.acct.Update(acc, u.NewLogin)
 	case "acct-delete":
 		return s.acct.Delete(u.Login)
+	case "acct-touch", "acct-delete-any":
+		// follow-up after a crash: the account the crashed update was about, under whichever login it has now
+		for _, l := range u.Logins {
+			if a := s.acct.Get(l); a != nil {
+				if u.Kind == "acct-delete-any" {
+					return s.acct.Delete(l)
+				}
+				acc := *a
+				acc.Name = u.Name
+				return s.acct.Update(acc, l)
+			}
+		}
+		return nil // the account does not exist in this state (e.g. its creation had not become visible)
 	case "ban-add":
 		if u.Until == 0 {
 			return s.bans.Add(u.IP, nil)
@@ -464,6 +479,35 @@ func (s *c20Sim) state() c20State {
 		st[p] = append([]byte{}, in.data...)
 	}
 	return st
+}
+
+// materialise writes the state into dir, keeping hard links (names that share an inode are linked, not copied).
+func (s *c20Sim) materialise(dir string) error {
+	for _, d := range []string{dir, filepath.Join(dir, "Users")} {
+		if err := os.MkdirAll(d, 0755); err != nil {
+			return err
+		}
+	}
+	var names []string
+	for p := range s.names {
+		names = append(names, p)
+	}
+	sort.Strings(names)
+	first := map[*c20Inode]string{}
+	for _, p := range names {
+		in := s.names[p]
+		if f, ok := first[in]; ok {
+			if err := os.Link(filepath.Join(dir, f), filepath.Join(dir, p)); err != nil {
+				return err
+			}
+			continue
+		}
+		first[in] = p
+		if err := os.WriteFile(filepath.Join(dir, p), in.data, 0644); err != nil {
+			return err
+		}
+	}
+	return nil
 }
 
 func (s *c20Sim) apply(c c20Call) {
@@ -1174,14 +1218,24 @@ func c20Case(c *Case, realKill bool) {
 		}
 		c.Dist(fmt.Sprintf("verdict/%s/%s", kindOf(last), v))
 	}
-	// (ii-b) life goes on after a crash: restart on a crash state (its leftovers included), make further complete updates
-	// of the same store, restart again – everything acknowledged in the recovery run must be on disk and loadable
+	// (ii-b) life goes on after a crash: for EVERY crash point restart on the crash state (leftovers and hard links
+	// included), make further complete updates, restart again – see c20Recovery
 	if len(lastCalls) > 0 {
-		kc := r.Intn(len(lastCalls) + 1)
-		if r.Chance(60) && len(lastCalls) >= 3 {
-			kc = 2 + r.Intn(2) // temp file completely written, not yet renamed
+		rs := c20NewSim(pre)
+		for k := 0; k <= len(lastCalls); k++ {
+			if k > 0 {
+				rs.apply(lastCalls[k-1])
+			}
+			work := filepath.Join(scratch, fmt.Sprintf("recovery-%d", k))
+			if err := rs.materialise(filepath.Join(work, "config")); err != nil {
+				panic(err)
+			}
+			ok := c20Recovery(c, r, work, last, store, job.IPs, k, "materialised")
+			os.RemoveAll(work)
+			if !ok {
+				return
+			}
 		}
-		c20Recovery(c, r, pre, lastCalls, kc, store, job.IPs, scratch)
 	}
 	if (len(lastCalls) > 0 && oldV[store] != newV[store]) || (last.Existing && res.Errors[lastIdx] != "") {
 		c.Nontrivial(fmt.Sprintf("%s|%v|%s|%s", kindOf(last), last, c20Listing(pre, ""), c20Listing(pre, "Users")))
@@ -1222,8 +1276,15 @@ func c20RealKill(c *Case, job c20Job, init0 c20State, scratch string, lastCalls 
 		}
 		st := c20ReadDir(cfg)
 		v := c20Judge(c, st, scratch, job.IPs, oldV, newV, store, k-1, "killed")
-		os.RemoveAll(work)
 		if v == "" {
+			os.RemoveAll(work)
+			return
+		}
+		// the really killed directory (real hard links, real leftovers): restart, continue, restart
+		os.Remove(filepath.Join(work, "result.json"))
+		okRec := c20Recovery(c, c.R, work, job.Updates[len(job.Updates)-1], store, job.IPs, k-1, "killed")
+		os.RemoveAll(work)
+		if !okRec {
 			return
 		}
 		c.Dist("real-kill/" + v)
@@ -1237,20 +1298,14 @@ func c20RealKill(c *Case, job c20Job, init0 c20State, scratch string, lastCalls 
 	}
 }
 
-// c20Recovery materialises "first kc calls of the in-flight update done", restarts the real stores on it in a child,
-// lets the child complete 1..3 small updates (valid whether the crashed update took effect or not), and loads the
-// directory again: it must load, and hold exactly what the child had in memory when its updates had returned.
-func c20Recovery(c *Case, r *RNG, pre c20State, lastCalls []c20Call, kc int, store string, ips []string, scratch string) {
-	sim := c20NewSim(pre)
-	for i := 0; i < kc; i++ {
-		sim.apply(lastCalls[i])
-	}
-	work := filepath.Join(scratch, "recovery")
+// c20Recovery: work/config holds a crash state ("first k calls of the in-flight update done", leftovers and hard links
+// included).  The real stores are restarted on it in a child, which completes further small updates – for the store
+// of the crashed update its own follow-up write, always another account create and an account update, and, for an
+// account in flight, an update or delete of that very account under whichever login it has now.  Then the directory
+// is loaded again and judged: it loads; it holds exactly what the child had in memory when its updates had returned
+// (every acknowledged update whole, nothing else changed); no two account files share an inode or a login.
+func c20Recovery(c *Case, r *RNG, work string, last c20Update, store string, ips []string, k int, how string) bool {
 	cfg := filepath.Join(work, "config")
-	os.RemoveAll(work)
-	if err := sim.state().write(cfg); err != nil {
-		panic(err)
-	}
 	follow := func(st string) c20Update {
 		switch st {
 		case "board":
@@ -1267,27 +1322,44 @@ func c20Recovery(c *Case, r *RNG, pre c20State, lastCalls []c20Call, kc int, sto
 		}
 	}
 	ups := []c20Update{follow(store)}
-	for n := r.Intn(3); n > 0; n-- {
-		ups = append(ups, follow(c20Stores4[r.Intn(4)]))
+	// always: another account create and an account update (they write through the shared temp name)
+	ups = append(ups, c20Update{Kind: "acct-create", Login: "y" + c20Token(r, 5), Name: "Y", Access: c20RandAccess(r)})
+	ups = append(ups, c20Update{Kind: "acct-update", Login: "guest", NewLogin: "guest", Name: "G " + c20Token(r, 3), Access: c20RandAccess(r)})
+	if store == "accounts" && !last.Existing {
+		// the account the crashed update was about
+		logins := []string{last.Login}
+		if last.NewLogin != "" && last.NewLogin != last.Login {
+			logins = []string{last.NewLogin, last.Login}
+		}
+		kind := "acct-touch"
+		if r.Chance(30) {
+			kind = "acct-delete-any"
+		}
+		u := c20Update{Kind: kind, Logins: logins, Name: "T " + c20Token(r, 4)}
+		at := r.Intn(len(ups) + 1)
+		ups = append(ups[:at], append([]c20Update{u}, ups[at:]...)...)
 	}
 	if r.Bool() {
-		ups = append(ups, follow(store))
+		ups = append(ups, follow(c20Stores4[r.Intn(4)]))
 	}
 	job := c20Job{Dir: cfg, Updates: ups, IPs: ips}
 	_, res, err := c20RunChild(c, job, work, "plain")
 	if err != nil {
 		panic(err)
 	}
+	st := c20ReadDir(cfg)
 	note := func() {
-		c.Note("recovery_after_call", kc)
+		c.Note("in_flight", last)
+		c.Note("recovery_after_call", k)
+		c.Note("crash_state_how", how)
 		c.Note("recovery_updates", ups)
-		c.Note("crash_state", c20Listing(sim.state(), "")+" || Users: "+c20Listing(sim.state(), "Users"))
+		c.Note("state_after_recovery", c20Listing(st, "")+" || Users: "+c20Listing(st, "Users"))
 	}
 	if res.LoadError != "" {
 		note()
 		c.Note("load_error", res.LoadError)
 		c.Violation("crash-state-does-not-load", "the restarted server could not load a crash state: "+res.LoadError)
-		return
+		return false
 	}
 	for i, e := range res.Errors {
 		if e != "" {
@@ -1295,15 +1367,15 @@ func c20Recovery(c *Case, r *RNG, pre c20State, lastCalls []c20Call, kc int, sto
 			c.Note("update_index", i)
 			c.Note("error", e)
 			c.Violation("update-fails-after-crash", "after a restart on a crash state an ordinary update fails: "+e)
-			return
+			return false
 		}
 	}
 	v, lerr := c20LoadValues(cfg, ips)
 	if lerr != "" {
 		note()
 		c.Note("load_error", lerr)
-		c.Violation("state-after-recovery-does-not-load", "a crash left a temp file behind; after the restarted server had completed further updates the directory no longer loads: "+lerr)
-		return
+		c.Violation("state-after-recovery-does-not-load", "a crash left something behind; after the restarted server had completed further updates the directory no longer loads: "+lerr)
+		return false
 	}
 	for _, s := range c20Stores4 {
 		if v[s] != res.MemAfter[s] {
@@ -1311,11 +1383,58 @@ func c20Recovery(c *Case, r *RNG, pre c20State, lastCalls []c20Call, kc int, sto
 			c.Note("store", s)
 			c.Note("memory", clip(res.MemAfter[s]))
 			c.Note("disk", clip(v[s]))
-			c.Violation("acknowledged-change-not-on-disk", "after a restart on a crash state and further completed updates, reloading gives a different "+s+" value than the one the server had in memory (leftovers of the crashed update leaked into the file)")
-			return
+			c.Violation("acknowledged-change-not-on-disk", "after a restart on a crash state and further completed updates, reloading gives a different "+s+" value than the one the server had in memory (an acknowledged update is lost or another entry was overwritten)")
+			return false
+		}
+	}
+	// structure of the accounts directory: one file per login, one inode per file
+	users := filepath.Join(cfg, "Users")
+	ents, _ := os.ReadDir(users)
+	byIno := map[uint64]string{}
+	byLogin := map[string]string{}
+	for _, e := range ents {
+		n := e.Name()
+		if !strings.HasSuffix(n, ".yaml") && n != ".account.tmp" {
+			continue
+		}
+		fi, err := os.Stat(filepath.Join(users, n))
+		if err != nil {
+			continue
+		}
+		if sys, ok := fi.Sys().(*syscall.Stat_t); ok {
+			if other, dup := byIno[sys.Ino]; dup {
+				note()
+				c.Note("files", other+" , "+n)
+				c.Violation("aliased-account-files", "after recovery and further completed account writes two names in Users/ are the same file (hard link): a write through one rewrites the other")
+				return false
+			}
+			byIno[sys.Ino] = n
+		}
+		if !strings.HasSuffix(n, ".yaml") {
+			continue
+		}
+		var acc hotline.Account
+		b, _ := os.ReadFile(filepath.Join(users, n))
+		if yaml.Unmarshal(b, &acc) == nil {
+			if other, dup := byLogin[acc.Login]; dup {
+				note()
+				c.Note("files", other+" , "+n)
+				c.Note("login", acc.Login)
+				c.Violation("duplicate-login-files", "after recovery and further completed updates two account files hold the same login: which one a restart keeps depends on the directory order")
+				return false
+			}
+			byLogin[acc.Login] = n
+			if n != acc.Login+".yaml" {
+				note()
+				c.Note("file", n)
+				c.Note("login", acc.Login)
+				c.Violation("account-file-misnamed", "after a restart and further completed updates an account file is not named after the login it holds: later updates and deletes of that account act on another file")
+				return false
+			}
 		}
 	}
 	c.Dist("recovery/" + store)
+	return true
 }
 
 var _ = bytes.Equal
